@@ -9,6 +9,36 @@ NOTE = ("Trusted: Coq 8.16.1 kernel (vm_compute; no native_compute); no axioms (
         "for the failing-input search only. ")
 
 CLAIMED = {
+ "C11": ("Theorems over the engine model: project |x..| { body } builds its body per arriving state from the walk* of the listed variables in "
+         "that state, so reaching the goal from several states (a preceding disjunction, repeated solving) gives each state its own terms, "
+         "never a panic outcome; unlisted variables are untouched. Tied to the code by project programs (sq fngoal under disjunctions, "
+         "nested projects, partial and compound bindings) compared step-exactly.",
+         "6/C11", "Coq proof: project = body under the arriving state's walk* substitution, for every state + step-exact differential correspondence + reference oracle",
+         "The Rust closure passed to Project::new is modelled as the elaborated body under the projection environment."),
+ "C13": ("PARTIAL. Proved over the elaboration model: an arm p => body of match/matche/matcha/matchu is the clause [t == p; body] with t "
+         "built in the outer environment, one new variable per distinct pattern name (NoDup, a repeated name is one variable), a new "
+         "any-variable per `_`, pattern names shadowing outer ones; the operators are conde/conda/condu over those clauses (C05-C08 give "
+         "their answers). The proc-macro parser itself is not modelled: generated match programs are printed as Rust, compiled against the "
+         "current macros and compared step-exactly with the model and with the reference expansion.",
+         "6/C13", "Coq proof of the arm expansion over the elaboration model + compiled-surface-program differential correspondence + reference expansion oracle",
+         "Parser (token level) covered by the compiled batches only; the multi-arm/multi-alternative expansion is stated for the one-arm building block."),
+ "C14": ("PARTIAL. Proved over the elaboration model: what each construct builds (true/false, ==/!= as state unification/disunification, "
+         "fresh = new distinct variables then conjunction, closure = its body constructed on arrival, list/improper-list/_/literal terms "
+         "denote the written term). The answers of the built goals are C05-C08. The token-level macros are tied by compiling generated "
+         "programs over the whole clause grammar and comparing answers, order and step counts with the model and the reference semantics.",
+         "6/C14", "Coq proof of construct-by-construct elaboration equations + compiled-surface-program differential correspondence + reference semantics oracle",
+         "Parser covered by compiled batches only; lterm! and {expr} arguments are exercised by the harness, not by generated programs."),
+ "C15": ("PARTIAL. Proved: the variables a fresh block / pattern arm / query introduces are pairwise distinct, new (at or above the counter) "
+         "and shadow the enclosing scope; the counter is monotone and each unfolding of a relation constructs its body from the arriving "
+         "state's counter; term construction depends only on the free names and is invariant under consistent renaming of a bound name. "
+         "Whole-program alpha-invariance is decided by compiling each generated program as written and renamed apart.",
+         "6/C15", "Coq proof: freshness/distinctness of bind_fresh, counter monotonicity, alpha-invariance of term construction + original-vs-renamed compiled programs",
+         "Alpha-invariance of whole goals is checked, not proved; VarID's global atomic counter is modelled as the per-state counter."),
+ "C20": ("Theorems: a compound term unifies, is walked, occurs-checked, reified and searched for any-variables as the tagged tuple of its "
+         "fields (same type name and arity unify field-wise; different tags or a compound against a list/literal fail). Programs mixing four "
+         "#[compound] types with lists, disequalities and finite domains are compared step-exactly and against the structural reference.",
+         "6/C20", "Coq proof: structural unification/reification theorems instantiated at compound terms + differential correspondence + brute-force FD oracle inside compounds",
+         "The tagged-list twin of the property text is replaced by the reference semantics; Rust tuples and Option compounds are not exercised."),
  "C21": ("Theorems for all terms: == is the structural equivalence up to variable names (reflexive, symmetric, transitive), equal terms feed "
          "the hasher the same sequence, and from_vec/collect, iter, improper_from_vec, extend, indexing, head/tail, is_improper and contains "
          "are the corresponding operations on the element sequence with the improper tail as final element.",
